@@ -19,6 +19,7 @@ import (
 	"sort"
 	"strconv"
 	"strings"
+	"unicode"
 )
 
 // ---------------------------------------------------------------- ordered JSON trees
@@ -179,7 +180,9 @@ func (n *jn) nodes(acc []*jn) []*jn {
 
 // tags whose JSON names fold onto ASCII or Latin-1 names in encoding/json (simple folding):
 // ſ (U+017F) ~ S/s, K (U+212A, Kelvin) ~ K/k, Å (U+212B, Angstrom) ~ Å/å, µ (U+00B5) ~ Μ/μ
-var foldTags = []string{"s", "S", "ſ", "k", "K", "K", "é", "É", "å", "Å", "µ", "μ", "ß", "ẞ", "ÿ", "Ÿ", "ks", "KS", "Kſ", "name", "NAME", "Name", "nAME"}
+var foldTags = []string{"s", "S", "ſ", "k", "K", "K", "é", "É", "å", "Å", "µ", "μ", "ß", "ẞ", "ÿ", "Ÿ", "ks", "KS", "Kſ", "name", "NAME", "Name", "nAME",
+	// names whose letters are all outside ASCII, or mixed: Latin-1, Cyrillic, Greek, in several casings
+	"ärger", "Ärger", "ÄRGER", "été", "Été", "öl", "ÖL", "имя", "Имя", "ИМЯ", "год", "ГОД", "αλφα", "Αλφα", "ΑΛΦΑ", "βητα", "ΒΗΤΑ", "ключ1", "x-ключ"}
 
 func retag(g *Gen, tn *sx, tags *[]string) {
 	if !tn.isL {
@@ -204,9 +207,56 @@ func retag(g *Gen, tn *sx, tags *[]string) {
 	}
 }
 
+// deepStruct nests structs `depth` levels (sonic inlines at most 3 levels, deeper ones are separate programs)
+func deepStruct(g *Gen, depth int) *sx {
+	st := listT("st", listT("f", atomT("A"), atomT("-"), atomT([]string{"int", "bool", "str", "i8"}[g.R.Intn(4)])))
+	if depth > 0 {
+		st.list = append(st.list, listT("f", atomT("B"), atomT("-"), deepStruct(g, depth-1)))
+	}
+	if g.R.Intn(2) == 0 {
+		st.list = append(st.list, listT("f", atomT("C"), atomT("-"), atomT("u16")))
+	}
+	return st
+}
+
+// nestedProgramType: scalar fields first, then members whose decoders are separately compiled programs
+// (recursive library types, structs nested deeper than the inline limit)
+func nestedProgramType(g *Gen) *sx {
+	st := listT("st")
+	st.list = append(st.list, listT("f", atomT("A"), atomT("-"), atomT([]string{"int", "bool", "str", "u8", "f64"}[g.R.Intn(5)])))
+	if g.R.Intn(2) == 0 {
+		st.list = append(st.list, listT("f", atomT("S"), atomT("-"), atomT("str")))
+	}
+	var inner *sx
+	switch g.R.Intn(6) {
+	case 0:
+		inner = listT("lib", atomT("Rec"))
+	case 1:
+		inner = listT("ptr", listT("lib", atomT("Rec")))
+	case 2:
+		inner = listT("sl", listT("lib", atomT("Rec")))
+	case 3:
+		inner = listT("lib", atomT("Tree"))
+	default:
+		inner = deepStruct(g, 3+g.R.Intn(3))
+	}
+	st.list = append(st.list, listT("f", atomT("Name"), atomT("-"), inner))
+	if g.R.Intn(2) == 0 {
+		st.list = append(st.list, listT("f", atomT("K"), atomT("-"), atomT("int")))
+	}
+	return st
+}
+
 func bindType(g *Gen, tags *[]string) *sx {
 	o := TypeOpts{NoLib: g.R.Intn(12) != 0}
 	var tn *sx
+	if g.R.Intn(10) == 0 {
+		*tags = append(*tags, "nested_program_type")
+		if g.R.Intn(5) == 0 {
+			return listT("lib", atomT([]string{"Rec", "Tree"}[g.R.Intn(2)]))
+		}
+		return nestedProgramType(g)
+	}
 	switch g.R.Intn(10) {
 	case 0:
 		tn = genType(g, 1, o)
@@ -285,10 +335,43 @@ func swapCase(s string) string {
 }
 
 // mutateKey rewrites a raw key literal: ASCII case, non-ASCII fold partners, escapes
+// caseNonASCII changes the case of the letters outside ASCII only (mode 0 upper, 1 lower, 2 first one
+// upper and the rest lower), leaving ASCII letters alone: "ärger" -> "Ärger", "имя" -> "ИМЯ"
+func caseNonASCII(s string, mode int) string {
+	first := true
+	return strings.Map(func(r rune) rune {
+		if r < 0x80 || !unicode.IsLetter(r) {
+			return r
+		}
+		up := mode == 0 || (mode == 2 && first)
+		first = false
+		if up {
+			return unicode.ToUpper(r)
+		}
+		return unicode.ToLower(r)
+	}, s)
+}
+
+func hasNonASCII(s string) bool {
+	for i := 0; i < len(s); i++ {
+		if s[i] >= 0x80 {
+			return true
+		}
+	}
+	return false
+}
+
 func mutateKey(g *Gen, k string, tags *[]string) string {
 	body := k
 	if len(k) >= 2 {
 		body = k[1 : len(k)-1]
+	}
+	if hasNonASCII(body) && !strings.Contains(body, "\\") && g.R.Intn(2) == 0 {
+		n := caseNonASCII(body, g.R.Intn(3))
+		if n != body {
+			*tags = append(*tags, "key_case_nonascii")
+			return `"` + n + `"`
+		}
 	}
 	switch g.R.Intn(8) {
 	case 0:
@@ -321,7 +404,69 @@ func mutateKey(g *Gen, k string, tags *[]string) string {
 	return k
 }
 
+// foldKeys: every object key with letters outside ASCII gets, with probability 1/2, another casing of those
+// letters (the case-insensitive fallback must find the field; the ASCII letters keep their case)
+func foldKeys(g *Gen, root *jn, tags *[]string) {
+	for _, n := range root.nodes(nil) {
+		if n.kind != 'o' {
+			continue
+		}
+		for i, k := range n.keys {
+			if len(k) >= 2 && hasNonASCII(k) && !strings.Contains(k, "\\") && g.R.Intn(2) == 0 {
+				c := `"` + caseNonASCII(k[1:len(k)-1], g.R.Intn(3)) + `"`
+				if c != k {
+					n.keys[i] = c
+					*tags = append(*tags, "key_case_nonascii")
+				}
+			}
+		}
+	}
+}
+
+// mismatchBefore puts a value of the wrong kind into a scalar member that precedes, in document order, a
+// member holding a container: the decoder must remember the type error while it runs the (possibly
+// separately compiled) decoder of the later member
+func mismatchBefore(g *Gen, root *jn, tags *[]string) {
+	var objs []*jn
+	for _, n := range root.nodes(nil) {
+		if n.kind == 'o' && len(n.elems) >= 2 {
+			objs = append(objs, n)
+		}
+	}
+	g.R.Shuffle(len(objs), func(i, j int) { objs[i], objs[j] = objs[j], objs[i] })
+	for _, n := range objs {
+		last := -1
+		for i, e := range n.elems {
+			if (e.kind == 'o' || e.kind == 'a') && len(e.elems) > 0 {
+				last = i
+			}
+		}
+		for i := 0; i < last; i++ {
+			e := n.elems[i]
+			var wrong string
+			switch e.kind {
+			case '0', 'b':
+				wrong = []string{`"oops"`, `{"a":1}`, `[1]`}[g.R.Intn(3)]
+			case 's':
+				wrong = []string{`12`, `true`, `{"a":1}`}[g.R.Intn(3)]
+			default:
+				continue
+			}
+			p := &jparser{b: []byte(wrong)}
+			*e = *p.val()
+			*tags = append(*tags, "mismatch_before_container")
+			return
+		}
+	}
+}
+
 func mutateDoc(g *Gen, root *jn, allowBadStrings bool, tags *[]string) *jn {
+	if g.R.Intn(3) != 0 {
+		foldKeys(g, root, tags)
+	}
+	if g.R.Intn(6) == 0 {
+		mismatchBefore(g, root, tags)
+	}
 	nm := 0
 	switch g.R.Intn(10) {
 	case 0:
@@ -534,6 +679,11 @@ func validCase(g *Gen) (cfg uint64, tn *sx, root *jn, tags []string) {
 	tags = append(tags, curTypeTags...)
 	p := &jparser{b: marshalRandom(g, tn)}
 	root = p.val()
+	for _, t := range curTypeTags {
+		if t == "nested_program_type" && g.R.Intn(2) == 0 {
+			mismatchBefore(g, root, &tags)
+		}
+	}
 	root = mutateDoc(g, root, hasValidate(cfg), &tags)
 	return
 }
